@@ -33,6 +33,8 @@ structure Obs where
   prog   : List Progress
   bans   : List Nat          -- sorted, no duplicates
   cache  : List Lru.Entry    -- most recent first
+  /-- keys whose cached block has a header hash other than the one it is cached under -/
+  cacheOther : List Nat := []
 deriving Repr
 
 def delivered (c : Call) (o : Obs) : List Resp := c.resps.take o.prog.length
@@ -42,8 +44,12 @@ def oracle (c : Call) (bansBefore : List Nat) (cacheBefore : List Lru.Entry) (o 
   let k := keyOf c.target c.base
   let dl := delivered c o
   let inCacheBefore := fun (key vid : Nat) => cacheBefore.any (fun e => e.key == key && e.vid == vid)
+  -- identity is the header HASH: what is returned or cached for a hash has that hash
+  let c0 := (match o.result with
+    | .ret _ h _ _ => if h then [] else ["returned-other-header"]
+    | .err _ => []) ++ (if o.cacheOther.isEmpty then [] else ["cached-other-header"])
   let c1 := match o.result with
-    | .ret _ h m w => if h && m && w then [] else ["returned-invalid"]
+    | .ret _ h m w => if !h || (m && w) then [] else ["returned-invalid"]
     | .err _ => []
   let c2 := match o.result with
     | .ret rid _ _ _ =>
@@ -76,6 +82,6 @@ def oracle (c : Call) (bansBefore : List Nat) (cacheBefore : List Lru.Entry) (o 
         else if (c.resps.takeWhile (fun r => !good c.target r)).any (bannable c.target)
         then ["valid-response-after-bad-peer-not-used"] else ["valid-response-not-used"]
     else []
-  c1 ++ c2 ++ c3 ++ c4 ++ c5 ++ c6 ++ c7
+  c0 ++ c1 ++ c2 ++ c3 ++ c4 ++ c5 ++ c6 ++ c7
 
 end Neutrino.GetBlock
